@@ -232,7 +232,13 @@ def gen_join_spec(rng, max_rows=8, how=None, nkeys=None, unique_left=None, uniqu
 	for side, n in ((left, nl), (right, nr)):
 		for j in range(rng.choice([0, 0, 1, 2])):
 			kind = rng.choice(["int", "float", "str"])
-			side["names"].append(rng.choice(["p", "q", "lid", "val"]) if rng.random() < 0.3 else f"{'l' if side is left else 'r'}p{j}")
+			r0 = rng.random()
+			if r0 < 0.12:
+				# labels that are falsy or not strings at all: they are names like any other
+				cand = [x for x in (0, "", False, 7, 2.5) if not any(type(y) is type(x) and y == x for y in side["names"])]
+				side["names"].append(rng.choice(cand) if cand else f"{'l' if side is left else 'r'}p{j}")
+			else:
+				side["names"].append(rng.choice(["p", "q", "lid", "val"]) if r0 < 0.4 else f"{'l' if side is left else 'r'}p{j}")
 			side["cols"].append(V.column(rng, kind, n, rng.choice(["none", "low", "high"]), small=True))
 	# payload-first column order sometimes
 	if rng.random() < 0.3:
